@@ -53,10 +53,20 @@ bez!(CubicBezier3, 3, 3, p3, e3, [start, ctrl0, ctrl1, end]);
 fn rand_pts(d: &mut Drv, n: usize, dim: usize) -> Vec<Vec<Q>> { (0..n).map(|_| d.vecn(dim)).collect() }
 
 fn basics<B: Bez>(d: &mut Drv) {
-    let c = rand_pts(d, B::DEG + 1, B::DIM);
+    let mut c = rand_pts(d, B::DEG + 1, B::DIM);
+    // curves that earlier calls produced rather than a constructor: very small / very large pieces (a sub-curve after many
+    // splits, a curve scaled by a matrix), a handle collapsed on its end point (derivative exactly zero there)
+    let mut t = Q::frac(d.rng.gen_range(-4..=12), 8);
+    match d.pick(6) {
+        0 => { let k = Q::new(1, 1i128 << 30); for p in c.iter_mut() { for x in p.iter_mut() { *x = *x * k; } } }
+        1 => { let k = Q::new(1i128 << 20, 1); for p in c.iter_mut() { for x in p.iter_mut() { *x = *x * k; } } }
+        2 => { c[1] = c[0].clone(); t = Q::int(0); }
+        3 => { let n = c.len(); c[n - 2] = c[n - 1].clone(); t = Q::int(1); }
+        _ => {}
+    }
+    let c = c;
     let b = B::from_pts(&c);
     // parameters inside and outside [0,1]
-    let t = Q::frac(d.rng.gen_range(-4..=12), 8);
     let arg = || json!({"ty": B::NAME, "pts": pts(&c), "t": ev(t)});
     d.call("bez_eval", arg, || evs(&b.eval(t)));
     d.call("bez_deriv", arg, || evs(&b.deriv(t)));
@@ -337,6 +347,27 @@ pub fn drive_bezlen(args: &[String]) {
             let q2 = QuadraticBezier2 { start: p2(0), ctrl: p2(1), end: p2(2) };
             let q3 = QuadraticBezier3 { start: p3(0), ctrl: p3(1), end: p3(2) };
             let k2: Vec<Vec<i64>> = k.iter().map(|r| r[..2].to_vec()).collect();
+            // pieces split off at one of the curve's own extrema (the derivative vanishes, up to rounding, at the cut): every
+            // sampled point of a piece lies inside the piece's bounding box; logged: the largest excess * 2^30
+            {
+                let kc: Vec<Vec<i64>> = (0..4).map(|_| (0..2).map(|_| d.rng.gen_range(-80..=80)).collect()).collect();
+                let pc = |i: usize| Vec2::new(kc[i][0] as f64 / 10.0, kc[i][1] as f64 / 10.0);
+                let c = CubicBezier2 { start: pc(0), ctrl0: pc(1), ctrl1: pc(2), end: pc(3) };
+                let mut cuts: Vec<f64> = vec![];
+                for infl in [c.x_inflections(), c.y_inflections()] { if let Some((t1, t2)) = infl { cuts.push(t1); if let Some(t2) = t2 { cuts.push(t2); } } }
+                for (ci, t) in cuts.iter().enumerate() {
+                    let [first, second] = c.split(*t);
+                    for (name, piece) in [("first", first), ("second", second), ("first/rev", CubicBezier2 { start: first.end, ctrl0: first.ctrl1, ctrl1: first.ctrl0, end: first.start })] {
+                        d.call("bez_piece_box_f", || json!({"ty": "CubicBezier2<f64>", "k": kc, "cut": ci as i64, "piece": name}), || {
+                            let b = piece.aabr();
+                            let mut worst = 0f64;
+                            for s in 0..=64 { let q = piece.evaluate(s as f64 / 64.0);
+                                for (v, lo, hi) in [(q.x, b.min.x, b.max.x), (q.y, b.min.y, b.max.y)] { worst = worst.max(lo - v).max(v - hi); } }
+                            json!(if worst.is_finite() { (worst * 1073741824.0).round() as i64 } else { 1i64 << 40 })
+                        });
+                    }
+                }
+            }
             d.call("bez_elev_f", || json!({"ty": "CubicBezier2<f64>", "k": k2}), || { let b = q2.into_cubic().aabr(); json!({"min": [sb(b.min.x), sb(b.min.y)], "max": [sb(b.max.x), sb(b.max.y)]}) });
             d.call("bez_elev_f", || json!({"ty": "QuadraticBezier2<f64>", "k": k2}), || { let b = q2.aabr(); json!({"min": [sb(b.min.x), sb(b.min.y)], "max": [sb(b.max.x), sb(b.max.y)]}) });
             d.call("bez_elev_f", || json!({"ty": "CubicBezier3<f64>", "k": k}), || { let b = q3.into_cubic().aabb(); json!({"min": [sb(b.min.x), sb(b.min.y), sb(b.min.z)], "max": [sb(b.max.x), sb(b.max.y), sb(b.max.z)]}) });
